@@ -69,6 +69,7 @@ class Check:
         self.rule = ""
         self.assumptions = []
         self.checker_cmds = []
+        self.replaying = False
 
     # ---------------------------------------------------------------- util
     def log(self, *a):
